@@ -3,12 +3,11 @@ From Coq Require Import List Bool Arith NArith.
 From TxVerif Require Import Lib.Bytes Lib.ListSet Lib.Verdict Spec.C15 Model.DescUpload.
 Import ListNotations.
 
-(* k_preds: the four finding predicates as evaluated by the Python mirror (drive_C15.finding_preds) *)
+(* k_preds: the finding predicates as evaluated by the Python mirror (drive_C15.finding_preds) *)
 Record case := { k_cfg : cfg; k_ops : list op; k_obs : list rec; k_preds : list bool }.
 
 Definition preds (k : case) : list bool :=
-  [foreign_uploaded_shared_dir (k_cfg k) (k_ops k); own_event_before_reply (k_cfg k) (k_ops k);
-   await_all_dir_failed_and_uploaded (k_cfg k) (k_ops k); create_rejected (k_cfg k) (k_ops k)].
+  [foreign_uploaded_shared_dir (k_cfg k) (k_ops k); own_event_before_reply (k_cfg k) (k_ops k)].
 
 Definition check (k : case) : verdict :=
   if negb (wf (k_ops k)) then VSkip else
